@@ -14,6 +14,10 @@
 (*             mutation) or Verify (verify() or rp.Task(...)); every       *)
 (*             Verify is judged on the content the object holds at that    *)
 (*             moment - exactly like the verify of a fresh description     *)
+(*   hand    : Handover (the real raptor Master.submit_workers /           *)
+(*             submit_tasks on a recording master), then one Copy event    *)
+(*             per description that left: the verified object, the         *)
+(*             registry entry, the inserted / sent / queued task           *)
 (*   xfunc   : Encode in a real __main__ script, Call "local" (decoded in  *)
 (*             the encoding process) and Call "remote" (decoded and called *)
 (*             in a fresh interpreter)                                     *)
@@ -49,6 +53,7 @@ C19(s) == {x \in s : x \in {"C19.ModeRulesNotEnforced", "C19.ModeRulesFalseRejec
 
 Input == CASE Tr.kind = "td" -> FromDict(Tr.inp)
            [] Tr.kind = "tdseq" -> FromDict(Tr.inp.base)
+           [] Tr.kind = "hand"  -> FromDict(Tr.inp.d)
            [] Tr.kind = "pd" -> PDFromDict(Tr.inp)
            [] OTHER          -> Tr.inp
 
@@ -223,6 +228,37 @@ FuncStep(e) ==
                     \cup E(e.dispatch = e.direct, "C19.FuncDispatchSameResult")
        [] OTHER -> errs' = errs \cup {"X.UnknownEvent"}
 
+(* ---- hand-over points ---------------------------------------------------- *)
+\* cur = the description as handed in; orig = the verified copy once seen
+HandStep(e) ==
+  LET r   == Tr.inp.route
+      pre == HandPre(r, cur)
+      rej == MustReject(pre) IN
+  /\ UNCHANGED <<cur, vok>>
+  /\ CASE e.ev = "Handover" ->
+            /\ orig' = orig
+            /\ errs' = errs \cup {"K.hand." \o r \o (IF rej THEN ".reject" ELSE ".accept")}
+                 \cup {"K.hand.alias." \o Alias[i].dep : i \in {j \in 1 .. NAlias : T(cur, Alias[j].dep)}}
+                 \cup (IF cur.loose # 0 THEN {"K.hand.loose." \o r} ELSE {})
+                 \cup (IF e.res = "raise" THEN E(rej, "C19.ModeRulesFalseReject")
+                                          ELSE E(~rej, "C19.ModeRulesNotEnforced"))
+                 \cup (IF e.res = "ok" THEN E(e.copies = CopyNames(r), "T19.CopiesDiffer") ELSE {})
+       [] e.ev = "Copy" ->
+            LET o   == Apply(cur, e.out)
+                ali == UNION {IF AliasKept(pre, o, i) THEN {}
+                              ELSE {"C19.AliasKeeps", "I.alias." \o Alias[i].dep} : i \in 1 .. NAlias}
+                los == UNION {IF o[a] = pre[a] THEN {} ELSE {"C19.LosesNothing", "I.lost." \o a}
+                              : a \in Attrs \ Touched(pre)}
+                cst == E(o.loose = 0, "C19.TypesCast")
+                agr == IF e.which = "verified" THEN {} ELSE E(o = orig, "C19.CopiesAgree")
+                c   == ali \cup los \cup cst \cup agr
+            IN
+            /\ orig' = IF e.which = "verified" THEN o ELSE orig
+            /\ errs' = errs \cup c \cup {"K.hand.copy." \o r \o "." \o e.which}
+                 \cup (IF C19(c) # {} \/ "C19.CopiesAgree" \in c THEN {"I.copy." \o e.which} ELSE {})
+                 \cup (IF C19(c) = {} THEN E(o = Verify(pre), "T19.VerifyDiffers") ELSE {})
+       [] OTHER -> errs' = errs \cup {"X.UnknownEvent"} /\ orig' = orig
+
 XFuncStep(e) ==
   /\ UNCHANGED <<cur, orig, vok>>
   /\ CASE e.ev = "Encode" ->
@@ -266,6 +302,7 @@ Step ==
        [] Tr.kind = "func"  -> FuncStep(e)
        [] Tr.kind = "fseq"  -> FSeqStep(e)
        [] Tr.kind = "xfunc" -> XFuncStep(e)
+       [] Tr.kind = "hand"  -> HandStep(e)
        [] Tr.kind = "tdseq" -> TDStep(e) /\ UNCHANGED orig
        [] OTHER -> errs' = errs \cup {"X.UnknownKind"} /\ UNCHANGED <<cur, orig, vok>>
 
